@@ -1,5 +1,264 @@
-import StraxModel.Model.Basic
+import StraxModel.Lemmas.LineageFuzzy
+/-
+  C02 — stored data is reused only under an identical lineage (no stale reads).
+
+  Model: `StraxModel/Model/Lineage.lean` (namespace `Strax.Lineage`); helper lemmas:
+  `StraxModel/Lemmas/Lineage*.lean`.  `H : String → K` stands for SHA-1 + base32 truncation applied
+  to the JSON text `canonString (canon x)`; it is a parameter, and the only thing assumed about it
+  is `HashInj H` (different canonical forms get different hashes), which follows from
+  injectivity of `H` and of the JSON printer (`hashInj_of_injective`).
+
+  All theorems below are about `Rules.fixed`, the rules of the code as it is now; the
+  `…_counterexample_…` theorems show by evaluation that each of the four earlier rules breaks the
+  corresponding statement.
+-/
 namespace Strax.C02
-open Strax
+open Strax Strax.Lineage
+
+variable {K : Type} [DecidableEq K]
+
+/-! ## keys do not depend on insertion orders or hash seeds -/
+
+/-- The insertion order of a dict-valued option (or of any dict inside an option value) does not
+change what is hashed. -/
+theorem canon_perm {d₁ d₂ : List (String × Val)} (hp : d₁.Perm d₂) (hn : NodupKeys d₁) :
+    canon (.dict d₁) = canon (.dict d₂) := canon_dict_perm hp hn
+
+/-- The iteration order of a set-valued option (it depends on `PYTHONHASHSEED`) does not change
+what is hashed. -/
+theorem canon_set_perm {l₁ l₂ : List String} (hp : l₁.Perm l₂) : canon (.sset l₁) = canon (.sset l₂) := by
+  simp only [canon, canonWith, if_true]
+  rw [sortS_eq_of_perm hp]
+
+/-- Before the fix (`hashablize` took sets in iteration order) it did. -/
+theorem canon_set_order_counterexample_old :
+    canonWith false (.sset ["alpha", "beta"]) ≠ canonWith false (.sset ["beta", "alpha"]) := by decide
+
+/-- The order in which options were put into the context config does not change any key. -/
+theorem key_config_perm (H : String → K) {r : Registry} {c c' : Config} (hp : c.Perm c') (hn : NodupKeys c)
+    {n : Nat} {d : String} {L : Lineage} (h : lineage r c n d = .ok L) :
+    ∃ L', lineage r c' n d = .ok L' ∧ keyOf H L = keyOf H L' := by
+  obtain ⟨L', h1, h2⟩ := lineage_config_perm hp hn h
+  exact ⟨L', h1, by unfold keyOf; rw [h2]⟩
+
+example : NodupKeys ([("b", Val.int 1), ("a", .dict [("y", .int 2), ("x", .int 3)])] : Config) := by decide
+
+/-! ## which keys change -/
+
+/-- what data type `a` contributes to a lineage: class name, version and tracked options as
+`hashablize` sees them (`none`: no registered class, or its configuration cannot be built) -/
+def trackedPart (r : Registry) (c : Config) (a : String) : Option Canon := (ownEntryOf r c a).map centry
+
+/-- Two lineages of `d` hash alike iff `d` has the same ancestors in both registries and every
+ancestor-or-self contributes the same tracked part.  Hence a change of a tracked option, of the
+version or of the providing class of `a` changes the key of `a` and of all its descendants, and
+of nothing else (`tracked_change_hits_descendants`, `registration_only_hits_descendants`,
+`option_change_only_hits_descendants_of_takers`). -/
+theorem lineage_changes_iff {r r' : Registry} {c c' : Config} (hc : NodupKeys c) (hc' : NodupKeys c')
+    {n n' : Nat} {d : String} {L L' : Lineage}
+    (h : lineage r c n d = .ok L) (h' : lineage r' c' n' d = .ok L') :
+    lineageCanon L = lineageCanon L' ↔
+      (∀ a, a ∈ ancestors r n d ↔ a ∈ ancestors r' n' d) ∧
+      ∀ a ∈ ancestors r n d, trackedPart r c a = trackedPart r' c' a := by
+  rw [lineageCanon_eq_iff (lineage_nodupKeys h) (lineage_nodupKeys h')]
+  unfold LinEq trackedPart
+  constructor
+  · intro hl
+    have key : ∀ a, (if a ∈ ancestors r n d then ownEntryOf r c a else none).map centry =
+        (if a ∈ ancestors r' n' d then ownEntryOf r' c' a else none).map centry := by
+      intro a; rw [← lineage_lookup h a, ← lineage_lookup h' a]; exact hl a
+    refine ⟨fun a => ⟨fun ha => ?_, fun ha => ?_⟩, fun a ha => ?_⟩
+    · have := key a
+      have hs := ownEntryOf_isSome_of_mem h ha
+      by_cases hb : a ∈ ancestors r' n' d
+      · exact hb
+      · rw [if_pos ha, if_neg hb] at this
+        cases e : ownEntryOf r c a with
+        | none => simp [e] at hs
+        | some v => simp [e] at this
+    · have := key a
+      have hs := ownEntryOf_isSome_of_mem h' ha
+      by_cases hb : a ∈ ancestors r n d
+      · exact hb
+      · rw [if_pos ha, if_neg hb] at this
+        cases e : ownEntryOf r' c' a with
+        | none => simp [e] at hs
+        | some v => simp [e] at this
+    · have := key a
+      have hs := ownEntryOf_isSome_of_mem h ha
+      by_cases hb : a ∈ ancestors r' n' d
+      · rw [if_pos ha, if_pos hb] at this; exact this
+      · rw [if_pos ha, if_neg hb] at this
+        cases e : ownEntryOf r c a with
+        | none => simp [e] at hs
+        | some v => simp [e] at this
+  · rintro ⟨hanc, htr⟩ a
+    rw [lineage_lookup h a, lineage_lookup h' a]
+    by_cases ha : a ∈ ancestors r n d
+    · rw [if_pos ha, if_pos ((hanc a).mp ha)]; exact htr a ha
+    · rw [if_neg ha, if_neg (fun hb => ha ((hanc a).mpr hb))]
+
+/-- the same statement about keys -/
+theorem key_changes_iff {H : String → K} (hH : HashInj H) {r r' : Registry} {c c' : Config}
+    (hc : NodupKeys c) (hc' : NodupKeys c') {n n' : Nat} {d : String} {L L' : Lineage}
+    (h : lineage r c n d = .ok L) (h' : lineage r' c' n' d = .ok L') :
+    keyOf H L ≠ keyOf H L' ↔
+      ¬ ((∀ a, a ∈ ancestors r n d ↔ a ∈ ancestors r' n' d) ∧
+         ∀ a ∈ ancestors r n d, trackedPart r c a = trackedPart r' c' a) := by
+  rw [← lineage_changes_iff hc hc' h h']
+  constructor
+  · intro hk he; exact hk (by unfold keyOf; rw [he])
+  · intro hk he; exact hk (hH _ _ he)
+
+/-- A change in the tracked part of `a` (tracked option value, version, class name) changes the
+key of every data type `d` that has `a` among its ancestors-or-self. -/
+theorem tracked_change_hits_descendants {H : String → K} (hH : HashInj H) {r r' : Registry} {c c' : Config}
+    (hc : NodupKeys c) (hc' : NodupKeys c') {n n' : Nat} {d a : String} {L L' : Lineage}
+    (h : lineage r c n d = .ok L) (h' : lineage r' c' n' d = .ok L')
+    (ha : a ∈ ancestors r n d) (hdiff : trackedPart r c a ≠ trackedPart r' c' a) :
+    keyOf H L ≠ keyOf H L' :=
+  (key_changes_iff hH hc hc' h h').mpr fun hh => hdiff (hh.2 a ha)
+
+/-- (Re-)registering a class for data type `t` leaves the lineage — hence the key — of every data
+type that does not descend from `t` exactly as it was. -/
+theorem registration_only_hits_descendants {r : Registry} {c : Config} {n : Nat} {d : String} {L : Lineage}
+    (cls : PluginClass) (h : lineage r c n d = .ok L) (ht : cls.provides ∉ ancestors r n d) :
+    lineage (r.set cls) c n d = .ok L :=
+  lineage_agree (fun a ha => by
+    rw [Registry.lookup_set]
+    have : a ≠ cls.provides := fun e => ht (e ▸ ha)
+    simp [this]) h
+
+/-- Changing the value of option `o` changes no key of a data type none of whose ancestors-or-self
+takes `o` as a tracked option; in particular an option that is untracked everywhere changes no
+key at all (`untracked_changes_no_key`). -/
+theorem option_change_only_hits_descendants_of_takers (H : String → K) {r : Registry} {c c' : Config}
+    (hc : NodupKeys c) (hc' : NodupKeys c') {o : String} (hcc : ∀ k, k ≠ o → CfgEqAt c c' k)
+    {n : Nat} {d : String} {L L' : Lineage}
+    (h : lineage r c n d = .ok L) (h' : lineage r c' n d = .ok L')
+    (hun : ∀ a ∈ ancestors r n d, ∀ cls, r.lookup a = some cls → ∀ opt ∈ cls.options, opt.name = o → opt.track = false) :
+    keyOf H L = keyOf H L' := by
+  have : lineageCanon L = lineageCanon L' := by
+    rw [lineage_changes_iff hc hc' h h']
+    refine ⟨fun a => Iff.rfl, fun a ha => ?_⟩
+    exact trackedPart_congr_off hc hc' hcc (ownEntryOf_isSome_of_mem h ha) (ownEntryOf_isSome_of_mem h' ha)
+      (fun cls hcls => hun a ha cls hcls)
+  unfold keyOf; rw [this]
+
+theorem untracked_changes_no_key (H : String → K) {r : Registry} {c : Config} (hc : NodupKeys c) (o : String) (v : Val)
+    (hun : ∀ cls ∈ r, ∀ opt ∈ cls.options, opt.name = o → opt.track = false)
+    {n : Nat} {d : String} {L L' : Lineage}
+    (h : lineage r c n d = .ok L) (h' : lineage r (dictSet c o v) n d = .ok L') :
+    keyOf H L = keyOf H L' :=
+  option_change_only_hits_descendants_of_takers H hc (hc.dictSet o v)
+    (fun k hk => by unfold CfgEqAt; rw [lookup_dictSet]; simp [hk]) h h'
+    (fun _ _ cls hcls => hun cls (Registry.lookup_provides hcls).2)
+
+/-! ## fuzzy matching -/
+
+/-- `_matches` in fuzzy mode accepts a stored lineage exactly when, outside the data types named in
+`fuzzy_for`, both lineages have the same data types with the same class and version, and outside
+the options named in `fuzzy_for_options` the same option values (as `hashablize` sees them). -/
+theorem fuzzy_match_iff {stored want : Lineage} {ff ffo : List String} (hs : LineageWF stored) (hw : LineageWF want) :
+    fuzzyMatches true stored want ff ffo = true ↔
+      ∀ t, t ∉ ff →
+        match stored.lookup t, want.lookup t with
+        | none, none => True
+        | some e, some e' => e.cls = e'.cls ∧ e.version = e'.version ∧ ∀ o, o ∉ ffo → CfgEqAt e.config e'.config o
+        | _, _ => False :=
+  fuzzyMatches_iff hs hw
+
+/-- Before the fix the filtered lineages were compared with Python `==`: a stored lineage (read
+back from JSON, tuples have become lists) never matched when any remaining option was a tuple. -/
+theorem fuzzy_match_counterexample_old :
+    let stored : Lineage := [("aa", ⟨"A", "1", [("x", .int 1), ("y", .seq true [.int 1, .int 2])]⟩)]
+    let want : Lineage := [("aa", ⟨"A", "1", [("x", .int 2), ("y", .seq true [.int 1, .int 2])]⟩)]
+    fuzzyMatches false stored want [] ["x"] = false ∧ fuzzyMatches true stored want [] ["x"] = true := by decide
+
+/-- A context with fuzzy matching switched on never writes to the directory, whatever it is
+asked to do (any rules). -/
+theorem fuzzy_never_saves (rules : Rules) (H : String → K) (ctx : Ctx K) (s : List (Item K)) (op : CtxOp)
+    (h : ctx.fuzzy = true) : (stepCtx rules H ctx s op).2.2 = s :=
+  stepCtx_fuzzy_storage rules H ctx s op h
+
+/-! ## no stale read -/
+
+/-- injectivity of the hash and of the JSON printer give the assumption the theorems use -/
+theorem hashInj_of_injective {H : String → K} (hH : Function.Injective H)
+    (hJ : Function.Injective canonString) : HashInj H := fun _ _ h => hJ (hH h)
+
+/-- **No stale read.**  After any history of set_config / register / new_context / fuzzy settings /
+lineage / is_stored / make / get_array issued to two contexts that share one directory, a context
+whose fuzzy matching is off returns from `get_array d` rows of exactly the provenance a brand-new
+context with the same registry and config computes on an empty directory — whenever that
+brand-new context can compute `d` at all. -/
+theorem no_stale_read {H : String → K} (hH : HashInj H) (ops : List Op) (who : Bool) (d : String) :
+    let s := (run Rules.fixed H State.init ops).2
+    (s.ctx who).fuzzy = false →
+    ∀ p fz, (step Rules.fixed H (freshState (s.ctx who).registry (s.ctx who).config) ⟨false, .get d⟩).1 = .data p fz →
+      ∃ p', (step Rules.fixed H s ⟨who, .get d⟩).1 = .data p' false ∧ keyOf H p' = keyOf H p ∧
+        lineageCanon p' = lineageCanon p := by
+  intro s hfz p fz hfresh
+  have hinv : Inv H s := run_inv hH (inv_init H) ops
+  have hctx : CtxInv H (s.ctx who) := by
+    cases who
+    · simpa [State.ctx] using hinv.1
+    · simpa [State.ctx] using hinv.2.1
+  have hf : (getCore Rules.fixed H (s.ctx who).fresh ([] : List (Item K)) d).1 = .data p fz := by
+    have : (step Rules.fixed H (freshState (s.ctx who).registry (s.ctx who).config) ⟨false, .get d⟩).1 =
+        (getCore Rules.fixed H (s.ctx who).fresh ([] : List (Item K)) d).1 := by
+      simp only [step, stepCtx, freshState, State.ctx, Ctx.fresh]
+      rfl
+    rw [← this]; exact hfresh
+  obtain ⟨p', hp', heq⟩ := getCore_no_stale hH hctx hfz hinv.2.2 d p fz hf
+  refine ⟨p', ?_, by unfold keyOf; rw [heq], heq⟩
+  have : (step Rules.fixed H s ⟨who, .get d⟩).1 = (getCore Rules.fixed H (s.ctx who) s.storage d).1 := by
+    simp only [step, stepCtx]
+  rw [this]; exact hp'
+
+/-! ### non-vacuity: a concrete history inside the hypotheses -/
+
+def clsP (default : Int) : PluginClass :=
+  ⟨"P", "1", "aa", [], [⟨"x", some (.int default), true, none⟩], false, [], "blosc", 80⟩
+def clsQ : PluginClass :=
+  ⟨"Q", "1", "bb", ["aa"], [⟨"y", some (.int 0), true, none⟩, ⟨"u", some (.int 0), false, none⟩], false, [], "blosc", 80⟩
+
+/-- register P(default 1); make; register P'(default 2) — the history of defect D4 -/
+def d4History : List Op :=
+  [⟨false, .register (clsP 1)⟩, ⟨false, .make "aa"⟩, ⟨false, .register (clsP 2)⟩]
+
+-- the fresh context computes the data, and the fixed rules return exactly that
+example :
+    (step Rules.fixed id (freshState [clsP 2] []) ⟨false, .get "aa"⟩).1 =
+      .data [("aa", ⟨"P", "1", [("x", .int 2)]⟩)] false := by decide
+example :
+    (step Rules.fixed id (run Rules.fixed id State.init d4History).2 ⟨false, .get "aa"⟩).1 =
+      .data [("aa", ⟨"P", "1", [("x", .int 2)]⟩)] false := by decide
+
+/-- **The old cache rule returns stale data.**  With the plugin cache guarded only by the context
+hash of (config, versions, compressors, timeouts) and never reset on re-registration, the
+4-op history *register P(default 1); make; register P'(default 2); get* returns the rows made
+with default 1, although a brand-new context computes them with default 2. -/
+theorem no_stale_read_counterexample_old :
+    (step Rules.old id (run Rules.old id State.init d4History).2 ⟨false, .get "aa"⟩).1 =
+      .data [("aa", ⟨"P", "1", [("x", .int 1)]⟩)] false ∧
+    (step Rules.old id (freshState (run Rules.old id State.init d4History).2.main.registry
+        (run Rules.old id State.init d4History).2.main.config) ⟨false, .get "aa"⟩).1 =
+      .data [("aa", ⟨"P", "1", [("x", .int 2)]⟩)] false := by decide
+
+/-- class of data type `aa` taking a tracked option that is itself called `aa` -/
+def clsA : PluginClass := ⟨"A", "1", "aa", [], [⟨"aa", some (.int 1), true, none⟩], false, [], "blosc", 80⟩
+
+def optNamedLikeTypeHistory : List Op :=
+  [⟨false, .register clsA⟩, ⟨false, .get "aa"⟩, ⟨false, .setConfig [("aa", .int 2)]⟩]
+
+/-- **The merged context hash loses an option that is named like a data type.**  Before the fix
+`set_config(aa=2)` did not change the context hash when `aa` is also a registered data type, the
+cached plugin was reused and `get_array` returned the rows made with `aa = 1`. -/
+theorem no_stale_read_counterexample_mergedhash :
+    (step Rules.mergedHash id (run Rules.mergedHash id State.init optNamedLikeTypeHistory).2 ⟨false, .get "aa"⟩).1 =
+      .data [("aa", ⟨"A", "1", [("aa", .int 1)]⟩)] false ∧
+    (step Rules.fixed id (run Rules.fixed id State.init optNamedLikeTypeHistory).2 ⟨false, .get "aa"⟩).1 =
+      .data [("aa", ⟨"A", "1", [("aa", .int 2)]⟩)] false := by decide
 
 end Strax.C02
